@@ -406,5 +406,5 @@ Qed.
 
 (* nothing is hidden in the hypothesis: a tree made of names, numbers and strings satisfies it whatever the strings contain *)
 Example lex_ok_example :
-  lex_ok (Call (Name "print") [Constant (CStr [10; 13; 39; 34; 92]%N); JoinedStr [Constant (CStr [10]%N); FormattedValue (Name "x") 114 None]] []) = true.
+  lex_ok (Call (Name "print") [Constant (CStr [10; 13; 39; 34; 92]%N); JoinedStr [Constant (CStr [10]%N); FormattedValue (Name "x") 114%Z None]] []) = true.
 Proof. reflexivity. Qed.
